@@ -96,7 +96,7 @@ class Dos2UnixHashStreamFile(HashStreamFile):
 
         data = dos2unix(chunk) if is_text else chunk
         self.hasher.update(data)
-        self.total_read += len(data)
+        self.total_read += len(chunk)
         return chunk
 
 
